@@ -274,6 +274,42 @@ class Run:
                         self.tokens.append("cs")
                         self.compacted = True
                         self.eng.cmd("!bgcompact 0")
+                    elif op[0] == "CSNAP":
+                        # a compaction round with a snapshot of every segment directory and of segments.idx at each
+                        # batch's "output written" (A) and "live list updated" (B) step: what a batch published must
+                        # not change when a later batch of the same round runs
+                        import time as _t
+                        A, B = "cp_output_written", "cp_live_updated"
+                        self.tokens.append("cs")
+                        self.compacted = True
+                        seen = {x: int(self.eng.cmd(f"!hits {x}").get("hits", 0)) for x in (A, B)}
+                        self.eng.cmd(f"!park {A}"); self.eng.cmd(f"!park {B}")
+                        self.eng.cmd("!bgcompact 0")
+                        self.snaps = getattr(self, "snaps", [])
+                        t_end = _t.time() + 25
+                        while _t.time() < t_end:
+                            hit = None
+                            for x, other in ((A, B), (B, A)):
+                                if int(self.eng.cmd(f"!hits {x}").get("hits", 0)) > seen[x]:
+                                    hit = (x, other)
+                                    break
+                            if hit:
+                                x, other = hit
+                                seen[x] += 1
+                                _t.sleep(0.01)   # the hit counter moves just before the thread blocks
+                                d = self.eng.dir_digest(hashes=True).get("shard-0", {"segs": {}})
+                                ix = self.eng.cmd("!index 0").get("index") or []
+                                self.snaps.append({"at": x, "after_obs": len(self.obs), "hashes": d["segs"],
+                                                   "listed": sorted(int(e.split(":")[0]) for e in ix)})
+                                self.eng.cmd(f"!park {other}")
+                                self.eng.cmd(f"!release {x}")
+                            elif self.eng.cmd("!bgcdone").get("done"):
+                                break
+                            else:
+                                _t.sleep(0.005)
+                        self.eng.cmd(f"!release {A}"); self.eng.cmd(f"!release {B}")
+                        self.eng.cmd("!joincompact"); self.eng.cmd("!sleep 40")
+                        self.drain_trace()
                     elif op[0] == "JOINC":
                         self.eng.cmd("!joincompact"); self.eng.cmd("!sleep 40")
                         self.drain_trace()
@@ -389,7 +425,7 @@ class Run:
         cap = int(self.cfg.get("fill_factor", 2)) * int(self.cfg.get("event_per_zone", 2))
         line = f"shard_run {cap} {self.ntypes} {self.nctx} " + " ".join(self.tokens)
         return {"line": line, "obs": self.obs, "notes": self.notes, "crashed": self.crashed,
-                "bgreads": getattr(self, "bgreads", [])}
+                "bgreads": getattr(self, "bgreads", []), "snaps": getattr(self, "snaps", [])}
 
 
 def run_history(case):
